@@ -836,6 +836,8 @@ def _grouped(world, acts):
         if a[0] == 1 and out and out[-1][0] == 1:
             prev = out[-1][1] if isinstance(out[-1][1], list) else [out[-1][1]]
             out[-1] = [1, prev + [a[1]]]
+        elif a[0] == 1:
+            out.append([1, [a[1]]])         # a single removal is handed over in list form as well: remove_model([m])
         else:
             out.append(list(a))
     return out
@@ -1077,7 +1079,7 @@ def run_queue_on(case, cls, flags, backend, queued=True):
                     if models[j] in machine.models and not any(models[j] is g for g in group):
                         group.append(models[j])
                 if group:
-                    machine.remove_model(group if len(group) > 1 else group[0])
+                    machine.remove_model(group)
             elif models[a[1]] in machine.models:
                 machine.remove_model(models[a[1]])
 
